@@ -21,7 +21,9 @@ Definition distinct_positions (db : list note_row) : bool :=
 Definition wf_case (c : case) : bool :=
   match c with
   | CSelect db e _ _ _ pol _ _ _ => wf_db db && wf_policy pol && (0 <=? e_target e) && distinct_positions db
-  | CPropose db e _ pay _ _ _ pol _ _ _ _ _ => wf_db db && wf_policy pol && (0 <=? e_target e) && (0 <=? pay) && distinct_positions db
+  | CPropose db udb e _ pay _ _ _ pol _ _ _ _ _ _ _ =>
+      wf_db db && wf_policy pol && (0 <=? e_target e) && (0 <=? pay) && distinct_positions db
+      && nodup_z (map u_id udb) && nodup_z (map u_value udb)   (* the gather's ORDER BY value is total *)
   | CLock db _ _ _ _ _ _ => wf_db db
   | CTSelect udb _ _ pol _ _ _ _ => nodup_z (map u_id udb) && wf_policy pol
   | CShield udb e _ _ pol _ _ _ _ _ _ _ => nodup_z (map u_id udb) && wf_policy pol && (0 <=? e_target e)
